@@ -128,6 +128,26 @@ def run(ck):
     ck.require_fact("E1.weak-only-if-allowed", hfl, ev_call("etagIsWeakEqual"), E.m_is_ref(weak_param[0]), True, "etagIsWeakEqual()", why="(If-Match / ranged requests would accept a weak match)")
     ck.require_fact("E1.weak-only-if-allowed", hfl, ev_call("etagIsStrongEqual"), E.m_is_ref(weak_param[0]), False, "etagIsStrongEqual()")
     ck.require_fact("E1.compare-parsed-tags", hfl, ev_call({"etagIsWeakEqual", "etagIsStrongEqual"}), E.m_calls("etagParseInit"), True, "etagIs*Equal()", min_sites=2)
+    ck.rule("E1c a match is sticky: hasOneOfEtags returns a local verdict; once it is true no later list member can overwrite it (every assignment of a "
+            "non-constant-true value to it is reached only with the verdict still false), so `\"a\", \"b\"` matches an entity tagged \"a\"")
+    rets = [E.strip(ev.get("x")) for b in hoe.blocks.values() for ev in b["ev"] if ev.get("e") == "ret"]
+    verdicts = sorted({r.get("d") for r in rets if isinstance(r, dict) and r.get("k") == "ref" and r.get("dk") == "local"})
+    ck.need(len(verdicts) == 1, "C14: hasOneOfEtags no longer returns one local verdict: %s" % verdicts)
+    vd = verdicts[0]
+    vfl = ck.flow(hoe, tracked=[vd])
+    nasg = 0
+    for st in vfl.find(ev_assign(vd, None, ops=("=",))):
+        if E.const(st.ev.get("rhs")) == 1:
+            continue        # setting the verdict to true is always fine
+        nasg += 1
+        cur = st.env.get(vd)
+        if cur == ("c", 0) or st.has(E.m_is_ref(vd), False):
+            ck.ok("E1c.match-is-sticky", st.where(), "hasOneOfEtags: '%s' is overwritten by a comparison result only while it is still false" % vd)
+        else:
+            ck.violation("E1c.match-is-sticky", "E1c|hasOneOfEtags|verdict-overwritten", st.where(),
+                         "hasOneOfEtags assigns a comparison result to '%s' on a path where it may already be true: a later non-matching entity-tag of the list "
+                         "erases an earlier match (If-None-Match: \"a\", \"b\" against ETag \"a\" -> 200 instead of 304)" % vd, vfl.witness(st))
+    ck.need(nasg >= 1, "C14: hasOneOfEtags no longer assigns a comparison result to its verdict")
     strong = facts.fn("etagIsStrongEqual")
     ck.need(len(strong.params) == 2, "C14: etagIsStrongEqual signature changed")
     sfl = ck.flow(strong)
@@ -197,6 +217,19 @@ def run(ck):
     ck.require_any("R2.entry-takes-new-headers", eu, ev_exit(("ret", "fall")), [(fresh, False), ("P", "mem_obj->updateReply()", ev_call("MemObject::updateReply"))], "return",
                    why="(the 304's header updates would be dropped)")
     ufl = ck.flow(eu)
+    # the 304 is merged into the *freshest* reply (the one already carrying earlier 304 updates), never into the original base reply
+    nmerge = 0
+    for st in ufl.find(ev_call("HttpReply::recreateOnNotModified")):
+        nmerge += 1
+        o = E.strip(st.ev["x"]).get("o")
+        defs = [o] if not (E.strip(o).get("k") == "ref" and E.strip(o).get("dk") == "local") else ck.local_defs(eu).get(E.strip(o)["d"], [])
+        if defs and all(any(n.get("k") == "call" and n.get("f") == "MemObject::freshestReply" for n in E.walk(d)) for d in defs):
+            ck.ok("R2.merge-into-freshest", st.where(), "updateOnNotModified merges the 304 into mem_obj->freshestReply()")
+        else:
+            ck.violation("R2.merge-into-freshest", "R2|StoreEntry::updateOnNotModified|merge-base", st.where(),
+                         "the 304 is merged into %s instead of the freshest reply: header updates brought by an earlier 304 are reverted by the next one"
+                         % [E.key(d)[:80] for d in defs])
+    ck.need(nmerge >= 1, "C14: StoreEntry::updateOnNotModified no longer calls recreateOnNotModified()")
     ck.require_fact("R2.entry-takes-new-headers", ufl, ev_return(E.m_const(0)), E.m_calls(SE + "timestampsSet"), False, "return false")
     ck.require_fact("R2.entry-takes-new-headers", ufl, ev_return(E.m_const(0)), fresh, False, "return false")
     rec = facts.fn("HttpReply::recreateOnNotModified")
